@@ -142,6 +142,7 @@ func buildModule(base string, subsets []int) pipe.Tree {
 type Run struct {
 	B1, B2 string `json:",omitempty"`
 	All    bool
+	Force  bool `json:",omitempty"`
 }
 
 type Case struct {
@@ -173,7 +174,7 @@ func checkCase(c *core.Ctx, cs Case) {
 			return
 		}
 		spec := pipe.Spec{
-			Dir: dir, Entrypoints: []string{"./" + lay.Entry + "/..."}, All: r.All, Base: cs.Base, Cwd: "",
+			Dir: dir, Entrypoints: []string{"./" + lay.Entry + "/..."}, All: r.All, Force: r.Force, Base: cs.Base, Cwd: "",
 			Globals: map[string][]string{"gengo:g1": {"true"}, "gengo:g2": {"true"}},
 			Gens: []pipe.GenScript{
 				{Name: "g1", Default: pipe.Action{}, ByType: byT(cs.Subsets, action(r.B1))},
@@ -335,7 +336,7 @@ func run(c *core.Ctx) {
 					if !c.Next() {
 						continue
 					}
-					cs := Case{Base: base, Subsets: subsets, Runs: []Run{{b1, b2, all}}}
+					cs := Case{Base: base, Subsets: subsets, Runs: []Run{{b1, b2, all, false}}}
 					checkCase(c, cs)
 					c.Sample(cs.Runs)
 				}
@@ -359,7 +360,7 @@ func run(c *core.Ctx) {
 					if len(small) > 12 {
 						small = []int{0, 1<<nPre - 1, 1 << 3, 1 << 4, 1<<4 | 1<<5, 1 << 6}
 					}
-					checkCase(c, Case{Layout: li, Base: "zz_generated", Subsets: small, Runs: []Run{{b1, b2, all}}})
+					checkCase(c, Case{Layout: li, Base: "zz_generated", Subsets: small, Runs: []Run{{b1, b2, all, false}}})
 				}
 			}
 		}
@@ -376,12 +377,32 @@ func run(c *core.Ctx) {
 					if !c.Next() {
 						continue
 					}
-					checkCase(c, Case{Layout: li, Base: "zz_generated", Subsets: []int{0, 1<<nPre - 1, 1 << 4, 1<<4 | 1<<5}, Runs: []Run{{b1, b2, all}}, FromSubdir: true})
+					checkCase(c, Case{Layout: li, Base: "zz_generated", Subsets: []int{0, 1<<nPre - 1, 1 << 4, 1<<4 | 1<<5}, Runs: []Run{{b1, b2, all, false}}, FromSubdir: true})
 				}
 			}
 		}
 	}
 	c.Bound("working_directories", []string{"module root", "the directory above the entry packages"})
+	// Force (regenerate whatever the cache says) changes nothing about which files a run may touch: one-run histories
+	// and second runs over the output of an ordinary first run, All on and off
+	for _, all := range []bool{false, true} {
+		for _, b1 := range behaviours {
+			for _, b2 := range behaviours {
+				if !c.Thorough() && b1 != b2 && b1 != "render" && b2 != "render" {
+					continue
+				}
+				if !c.Next() {
+					continue
+				}
+				small := []int{0, 1<<nPre - 1, 1 << 4, 1<<4 | 1<<5}
+				checkCase(c, Case{Base: "zz_generated", Subsets: small, Runs: []Run{{b1, b2, all, true}}})
+				for _, all1 := range []bool{false, true} {
+					checkCase(c, Case{Base: "zz_generated", Subsets: small, Runs: []Run{{"render", "render", all1, false}, {b1, b2, all, true}}})
+				}
+			}
+		}
+	}
+	c.Bound("force", "one-run histories and second runs with Force set, All on and off")
 	// two-run histories (previous outputs produced by the real system)
 	for _, all1 := range []bool{false, true} {
 		for _, all2 := range []bool{false, true} {
@@ -399,7 +420,7 @@ func run(c *core.Ctx) {
 							if len(small) > 12 {
 								small = []int{0, 1<<nPre - 1, 1 << 3, 1 << 4, 1<<4 | 1<<5, 1 << 6}
 							}
-							checkCase(c, Case{Base: "zz_generated", Subsets: small, Runs: []Run{{f1, f2, all1}, {s1, s2, all2}}})
+							checkCase(c, Case{Base: "zz_generated", Subsets: small, Runs: []Run{{f1, f2, all1, false}, {s1, s2, all2, false}}})
 						}
 					}
 				}
